@@ -47,10 +47,17 @@ def gen_hashing(rng):
     return {'name': 'sha3', 'bits': rng.choice([224, 256, 384, 512])}
 
 
+NONCE_BITS = [96, 96, 64, 104, 128, 128, 192, 256]      # byte-aligned AES-GCM nonce sizes; 96 is the default
+
+
 def gen_cipher(rng):
-    if rng.random() < 0.35:
+    """both ciphers; for aes_gcm every key size and default / non-default nonce sizes (chacha20_poly1305 has no parameters)"""
+    if rng.random() < 0.3:
         return {'name': 'chacha20_poly1305'}
-    return {'name': 'aes_gcm', 'key_bits': rng.choice([128, 192, 256])}
+    c = {'name': 'aes_gcm', 'key_bits': rng.choice([128, 192, 256])}
+    if rng.random() < 0.75:
+        c['nonce_bits'] = rng.choice(NONCE_BITS)
+    return c
 
 
 def gen_chunking(rng):
@@ -103,6 +110,37 @@ def gen_case1(rng):
             'second': rng.random() < 0.4, 'note': rng.choice([None, 'n', 'note é'])}
 
 
+def read_block_size():
+    """the size of the blocks snapshot() reads files in: default of _stream_files' chunk_size, from the source"""
+    try:
+        import ast
+        from translate import pyast
+        R = pyast.find_class(pyast.module('replicat/repository.py'), 'Repository')
+        fn = pyast.find_func(pyast.find_func(R, 'snapshot'), '_stream_files')
+        names = [a.arg for a in fn.args.args]
+        v = ast.literal_eval(fn.args.defaults[names.index('chunk_size') - (len(names) - len(fn.args.defaults))])
+        if isinstance(v, int) and 0 < v <= 2 ** 26:
+            return v
+    except Exception:
+        pass
+    return 16_777_216
+
+
+def gen_big_case1(rng):
+    """one file spanning more than one internal read block, next to a few small ones"""
+    block = read_block_size()
+    mx = rng.choice([65536, 131072, 262144])
+    settings = {'chunking': {'min_length': mx // 4, 'max_length': mx}, 'hashing': gen_hashing(rng)}
+    if rng.random() < 0.3:
+        settings['encryption'] = None
+    else:
+        settings['encryption'] = {'cipher': gen_cipher(rng), 'kdf': {'name': 'scrypt', 'n': 4, 'r': 1, 'p': 1}}
+    tree = [{'parts': ['small-a'], 'size': rng.randint(0, 9), 'kind': 'data'}, {'parts': ['d', 'small-b'], 'size': rng.randint(1, 5000), 'kind': 'data'},
+            {'parts': ['d', 'big é'], 'size': block + rng.randint(1, block // 8), 'kind': 'data'}]
+    return {'dir': 1, 'settings': settings, 'concurrent': rng.choice([1, 2, 3]), 'tree': tree, 'seed': rng.randint(0, 2 ** 31),
+            'second': False, 'note': None, 'big': True, 'read_block': block}
+
+
 def gen_case2(rng):
     hashing = gen_hashing(rng)
     config = {'hashing': dict(hashing), 'chunking': {'name': 'gclmulchunker', 'min_length': 128000, 'max_length': 5120000}}
@@ -110,8 +148,8 @@ def gen_case2(rng):
         config['hashing'].pop('bits')           # defaults are part of the documented settings table (512 bits)
     if rng.random() >= 0.3:
         c = gen_cipher(rng)
-        if c['name'] == 'aes_gcm':
-            c['nonce_bits'] = 96
+        if c['name'] == 'aes_gcm' and 'nonce_bits' not in c and rng.random() < 0.5:
+            c['nonce_bits'] = 96         # omitted = the documented default
         config['encryption'] = {'cipher': c}
     nfiles = rng.choice([1, 2, 3, 5, 8])
     paths = gen_paths(rng, nfiles)
@@ -233,6 +271,10 @@ def _read_dir1(case, settings, encrypted, password, objects, key_bytes, expected
     if (set(cfg.get('encryption') or {}) or None) != want_enc or cfg['hashing'].get('name') != settings['hashing']['name']:
         bad(f'config does not reflect the requested settings: {cfg}', 'config_or_key')
     if encrypted:
+        asked, got = settings['encryption']['cipher'], cfg['encryption']['cipher']
+        if got.get('name') != asked['name'] or any(got.get(k) != v for k, v in asked.items()) \
+                or (asked['name'] == 'aes_gcm' and (got.get('key_bits', 256), got.get('nonce_bits', 96)) != (asked.get('key_bits', 256), asked.get('nonce_bits', 96))):
+            bad(f'config does not record the requested cipher parameters: asked {asked}, recorded {got}', 'config_or_key')
         raw_key = refcodec.loads_raw(key_bytes)
         if not (_tagged(raw_key.get('kdf_params')) and _tagged(raw_key.get('private'))):
             bad('key file: kdf_params / private are not tagged {"!b": base64} byte strings', 'tagging')
@@ -309,8 +351,8 @@ def _read_dir1(case, settings, encrypted, password, objects, key_bytes, expected
                 bad(f'file reassembled from the recorded ranges differs from the source ({len(got)} vs {len(want)} bytes)', 'file_bytes')
             if total != size or not isinstance(md, dict) or md.get('st_size') != size:
                 bad(f'ranges do not tile the file: sum {total}, st_size {md.get("st_size") if isinstance(md, dict) else None}, real {size}', 'tiling')
-            if entry['digest'] != rd.keys.hash(want):
-                bad('file digest is not Hash(content)', 'file_entry')
+            if entry['digest'] != rd.keys.hash(want) or entry['digest'] != rd.keys.hash(got):
+                bad('the bytes rebuilt from the recorded ranges / the source do not hash to the recorded file digest', 'file_entry')
             if isinstance(md, dict) and (md.get('st_mtime_ns') != mtime_ns or md.get('st_mode') != mode
                                          or not {'st_uid', 'st_gid', 'st_atime_ns', 'st_ctime_ns'} <= set(md)):
                 bad('file metadata differs from the source', 'metadata')
@@ -321,28 +363,29 @@ def _read_dir1(case, settings, encrypted, password, objects, key_bytes, expected
             ne = [x for x in lay if x[3] > x[2]]
             for i, (c, _, a, b, n) in enumerate(ne):
                 if (i > 0 and a != 0) or (i < len(ne) - 1 and b != n) or (i > 0 and c != ne[i - 1][0] + 1):
-                    bad(f'ranges of a file are not consecutive in the chunk stream: {[(x[0], x[2], x[3], x[4]) for x in ne]}', 'tiling')
+                    bad(f'ranges of a file are not consecutive in the chunk stream (counter, start, end, chunk length): '
+                        f'{[(x[0], x[2], x[3], x[4]) for x in ne[max(0, i - 2):i + 2]]}', 'tiling')
                     break
             for c, i, _, _, _ in lay:
                 bycounter[c] = table[i]
             if ne:
                 spans.append((ne[0][0], ne[0][2], size))
             obs['files'].append({'refs': [[a, b, c] for c, _, a, b, _ in lay],
-                                 'chunks': {str(c): rd.chunk_plaintext(table[i]).hex() for c, i, _, _, _ in lay},
-                                 'want': want.hex()})
+                                 'chunks': {c: rd.chunk_plaintext(table[i]) for c, i, _, _, _ in lay}, 'want': want})
         # the chunk stream: files start at multiples of the chunker alignment (4), zero padding in between
         if bycounter and set(bycounter) == set(range(1, max(bycounter) + 1)):
-            offs, pos, stream = {}, 0, b''
+            offs, pos, pieces = {}, 0, []
             for c in range(1, max(bycounter) + 1):
                 offs[c] = pos
                 plain = rd.chunk_plaintext(bycounter[c])
                 pos += len(plain)
-                stream += plain
+                pieces.append(plain)
+            stream = b''.join(pieces)
             placed = sorted((offs[c] + a, n) for c, a, n in spans)
             for j, (start, n) in enumerate(placed):
                 nxt = placed[j + 1][0] if j + 1 < len(placed) else None
                 if start % 4 or (nxt is not None and (nxt - (start + n) != (-n) % 4 or stream[start + n:nxt].strip(b'\0'))):
-                    bad(f'files are not laid out at multiples of the alignment with zero padding: {placed}', 'padding')
+                    bad(f'files are not laid out at multiples of the alignment with zero padding: {placed[:8]}', 'padding')
                     break
             if placed and placed[-1][0] + placed[-1][1] != len(stream):
                 bad('the chunk stream extends past the last file', 'padding')
@@ -852,8 +895,13 @@ def do_dir1(rep, ctx, cases, with_model=True):
         enc = case['settings'].get('encryption', {}) is not None
         rep.count('d1_encrypted' if enc else 'd1_unencrypted')
         rep.count('d1_hash=' + case['settings']['hashing']['name'])
+        if case.get('big'):
+            rep.count('d1_file_spanning_read_blocks')
         if enc:
-            rep.count('d1_cipher=' + case['settings']['encryption']['cipher']['name'] + str(case['settings']['encryption']['cipher'].get('key_bits', '')))
+            ci = case['settings']['encryption']['cipher']
+            rep.count('d1_cipher=' + ci['name'] + str(ci.get('key_bits', '')))
+            if ci['name'] == 'aes_gcm':
+                rep.count('d1_nonce_bits=' + str(ci.get('nonce_bits', 'default')))
         if obs is None:
             rep.case(case, nontrivial=False)
             continue
@@ -865,6 +913,9 @@ def do_dir1(rep, ctx, cases, with_model=True):
         for f in obs['files']:
             f['case'] = case
         files += obs['files']
+    # Model/Stream works in unary nat: the Coq reader is run on small files only; files spanning read blocks are
+    # checked by the independent reader alone
+    files = [f for f in files if len(f['want']) <= 5000 and all(b <= 5000 for _, b, _ in f['refs'])]
     if with_model and files:
         out, err = coq_batches('c14plan', files, model_plans, 120)
         if out is None:
@@ -872,11 +923,11 @@ def do_dir1(rep, ctx, cases, with_model=True):
         else:
             for f, (writes, size) in zip(files, out):
                 rep.traces_validated += 1
-                want = bytes.fromhex(f['want'])
+                want = f['want']
                 buf = bytearray(size)
                 ok = size == len(want)
                 for pos, a, b, c in writes:
-                    chunk = bytes.fromhex(f['chunks'][str(c)])
+                    chunk = f['chunks'][c]
                     if pos + (b - a) > size:
                         ok = False
                         break
@@ -923,6 +974,11 @@ def do_dir2(rep, ctx, cases, with_model=True):
         nch = sum(len(l['clens']) for l in layouts[i])
         rep.case(case, nontrivial=nch >= 2 or len(case['files']) >= 2)
         rep.count('d2_encrypted' if 'encryption' in case['config'] else 'd2_unencrypted')
+        if 'encryption' in case['config']:
+            ci = case['config']['encryption']['cipher']
+            rep.count('d2_cipher=' + ci['name'] + str(ci.get('key_bits', '')))
+            if ci['name'] == 'aes_gcm':
+                rep.count('d2_nonce_bits=' + str(ci.get('nonce_bits', 'default')))
         rep.count('d2_legacy_metadata' if case['legacy'] else 'd2_current_metadata')
         rep.count('d2_split=' + case['split'])
         rep.count('d2_json=' + case['style'])
@@ -938,7 +994,8 @@ def corpus_cases():
 def run(ctx) -> Report:
     rep = Report(rule=RULE)
     corpus = corpus_cases()
-    c1 = [c for c in corpus if c.get('dir') == 1] + [gen_case1(ctx.rng) for _ in range(ctx.scale(80, 2500))]
+    c1 = [c for c in corpus if c.get('dir') == 1] + [gen_big_case1(ctx.rng) for _ in range(ctx.scale(1, 4))] \
+        + [gen_case1(ctx.rng) for _ in range(ctx.scale(80, 2500))]
     c2 = [c for c in corpus if c.get('dir') == 2] + [gen_case2(ctx.rng) for _ in range(ctx.scale(110, 3000))]
     seeds = do_dir1(rep, ctx, c1)
     do_dir2(rep, ctx, c2)
@@ -952,7 +1009,7 @@ def search(ctx, broken) -> Report:
     rep = Report(rule=RULE)
     seeds1 = [b['case'] for b in broken if isinstance(b.get('case'), dict) and b['case'].get('dir') == 1]
     seeds2 = [b['case'] for b in broken if isinstance(b.get('case'), dict) and b['case'].get('dir') == 2]
-    s = do_dir1(rep, ctx, seeds1 + [gen_case1(ctx.rng) for _ in range(250)], with_model=False)
+    s = do_dir1(rep, ctx, seeds1 + [gen_big_case1(ctx.rng)] + [gen_case1(ctx.rng) for _ in range(250)], with_model=False)
     do_dir2(rep, ctx, seeds2 + [gen_case2(ctx.rng) for _ in range(300)], with_model=False)
     check_locations(rep, ctx, s, 2000, with_model=False)
     check_json(rep, ctx, 1500, with_model=False)
